@@ -39,6 +39,9 @@ def run_case(case, cid):
     rec["spin"] = case["spin"]
     try:
         terms = pure.items_of(snap)
+        d0 = common.common_den([common.frac(v) for _, v in terms])
+        rec["den"] = d0
+        rec["model"] = pure.enc_terms(terms, nm, d0)          # recorded before the call, so it is there if the call raises
         with warnings.catch_warnings():
             warnings.simplefilter("ignore")
             if case["op"] == "extrema":
